@@ -113,9 +113,18 @@ def bytes_follow(inv, p, depth=0):
     return None
 
 
+def std_copy_assertion(c):
+    """Rust std's kernel_copy asserts that sendfile/splice/copy_file_range report "not supported" errnos (EPERM, ENOSYS,
+    EINVAL, ...) only BEFORE any byte was written; injecting such an errno after partial progress makes std itself panic.
+    The kernel never does that, so such a fault sequence is outside the fault model (not a property violation of fclones)."""
+    return c.res["exit"] == 101 and "kernel_copy" in c.res["stderr"] and "assertion" in c.res["stderr"]
+
+
 def property_oracle(c):
     """model-free evaluation of C05 on the final tree of one run; returns [(kind, text)]"""
     bad = []
+    if std_copy_assertion(c):
+        return bad
     vs = victims_of(c.cmds)
     inv1 = {A.canon_temp(p, vs): e for p, e in c.inv1.items()}
     killed = c.spec.get("kill") is not None
@@ -173,7 +182,7 @@ def describe(c):
     return {"scenario": c.scn.describe(), "op": c.op, "fault": c.spec, "simulated_ficlone": c.sim,
             "cli": [c.res and "fclones"] + A.cli_args(c.op, c.scn), "report": c.scn.report,
             "env": dict({"RAYON_NUM_THREADS": "1", "LD_PRELOAD": ".cache/fsshim.so", "FSSHIM_SCOPE": c.scn.base}, **c.scn.env_extra()),
-            "libc_trace": ["\t".join(f) for f in c.res["trace"]][-60:], "stderr": c.res["stderr"][-1500:],
+            "libc_trace": ["\t".join(f) for f in c.res["trace"]][-60:], "stderr": c.res["stderr"][-1500:], "stderr_head": c.res["stderr"][:2500],
             "model_input": c.line}
 
 
@@ -330,6 +339,10 @@ def run(ctx):
             ctx.bump("move_copy_branch_taken", "yes")
         if any(x.get("tolerated_inj") for x in c.calls):
             ctx.bump("fault_tolerated_inside_std_fs_copy", "yes")
+        if std_copy_assertion(c):
+            # outside the fault model (see std_copy_assertion): counted, not compared
+            ctx.bump("fault_sequence_outside_model", "std kernel_copy assertion (unsupported-errno after partial progress)")
+            continue
         for kind_, text in property_oracle(c):
             ctx.violation({"kind": kind_, "op": c.op}, "C05 violated by the implementation: " + text, describe(c), found_input=True)
         if c.extra.get("abstraction_error"):
